@@ -3,7 +3,7 @@ import WebAuthnModel.Model.Tpm
 import WebAuthnModel.Model.Json
 /-
   Programs over dependency oracles.  The repository's own logic is written in Lean; every call
-  into a dependency (crypto, x509, go-tpm, go-jose) is an `ask`; `encoding/json` decoding of client data is modelled in Lean (`Model/Json`); `net/url` host extraction is modelled in Lean (`Model/Url`); the ASN.1 values the
+  into a dependency (crypto, x509, go-jose) is an `ask`; go-tpm's TPMS_ATTEST / TPMT_PUBLIC codec is modelled in Lean (`Model/Tpm2`); `encoding/json` decoding of client data is modelled in Lean (`Model/Json`); `net/url` host extraction is modelled in Lean (`Model/Url`); the ASN.1 values the
   repository decodes itself with `encoding/asn1` (Keymaster key description, Apple nonce, AAGUID extension)
   are decoded in Lean (`Model/Asn1`, `Model/KeyDesc`).  Theorems
   quantify over every `Env`; the driver interprets the same program in IO, the Go harness
@@ -71,9 +71,7 @@ inductive Ask where
   | sigVerify (s : SigScheme) (hashId : Nat) (k : KeyMat) (msg sig : Bytes)
   | x509Parse (der : Bytes)
   | x509CheckSig (der : Bytes) (alg : Nat) (msg sig : Bytes)
-  | tpmCertInfo (raw : Bytes)
-  | tpmPubArea (raw : Bytes)
-  | tpmAlgHash (alg : Nat)                               -- tpm2.Algorithm.Hash(): some crypto.Hash id
+  | tpmHashes                                            -- which TPM hash algorithms are linked in: (TPM_ALG_ID, crypto.Hash id) pairs
   | sanView (certDer : Bytes)                            -- the SAN extensions of the certificate as encoding/asn1 parses them
   | safetyNet (raw : Bytes)                              -- parse + chain validation + claims
   | jwsHeaders (raw : Bytes)                             -- jwt.ParseSigned: number of signatures/headers
@@ -95,8 +93,7 @@ inductive Resp where
   | bool (b : Bool)
   | nat (n : Nat)
   | cert (c : CertView)
-  | certInfo (c : CertInfoView)
-  | pubArea (p : PubAreaView)
+  | hashTable (t : List (Nat × Nat))
   | safetyNet (s : SafetyNetView)
   | san (exts : List Tpm.SanExt)
   deriving Repr, DecidableEq, Inhabited
